@@ -13,7 +13,7 @@ CONSTANTS
   FailMode = 0
   PanicMode = 0
   Seeds <- cSeedsEmpty
-  MaxSteps = 3
+  MaxSteps = 4
 SPECIFICATION Spec
 VIEW View
 INVARIANTS ModelTypeOK NoUninitRead
